@@ -186,6 +186,7 @@ Inductive Op :=
 | OVote (id a c : Z)
 | ORelease (a : Z)
 | OStake (kind v : Z) (envok : bool) (delta : Z)     (* kind 0 stake, 1 unstake, 2 withdraw *)
+| OInvalid                                           (* a transaction its handler's Validate refuses (DeliverTx validates since /repo d276709): e.g. not signed by the named validator *)
 | OEnd (queue : list (Z * Z)) (order : list Z).      (* EndBlock + Commit *)
 
 Inductive Ev :=
@@ -202,16 +203,18 @@ Definition frozen_keys (s : St) : list Z :=
   filter (fun a => is_frozen s a = true) (map_to_list (susp s)).*1.
 Definition scan_one (h t : Z) (c : Cfg) (acc : St * list Z * list Ev) (a : Z) : St * list Z * list Ev :=
   let '(s, m, ev) := acc in
+  if inb a m then acc else     (* /repo 5d81591: an existing freeze record is kept *)
   match vstat s !! a with
   | Some v =>
       if v_active v && (v_height v + blockVotesDiff c <=? h) then
         (set_susp s (<[a := {| l_status := MISSED; l_fh := h; l_fat := t; l_rh := 0; l_rat := None |}]> (susp s)),
-         (if inb a m then m else a :: m), ev ++ [EvFrozen a MISSED h])
+         a :: m, ev ++ [EvFrozen a MISSED h])
       else acc
   | None => acc
   end.
 Definition begin_block (c : Cfg) (s : St) (h t : Z) (low : list Z) : St * list Ev :=
-  if h <=? blockVotesDiff c then (set_block s [] h t, [])
+  (* /repo 304e1e1: the frozen validators are collected at every height; only the scan is gated *)
+  if h <=? blockVotesDiff c then (set_block s (frozen_keys s) h t, [])
   else
     let '(s1, m, ev) := fold_left (scan_one h t c) low (s, frozen_keys s, []) in
     (set_block s1 m h t, ev).
@@ -327,6 +330,7 @@ Definition step (c : Cfg) (s : St) (o : Op) : St * list Ev :=
   | OVote id a ch => do_vote s id a ch
   | ORelease a => do_release c s a
   | OStake k v ok d => do_stake s k v ok d
+  | OInvalid => (s, [EvTx false])
   | OEnd q ord => end_block c s q ord
   end.
 
@@ -339,13 +343,3 @@ Fixpoint run (c : Cfg) (s : St) (ops : list Op) : St * list Ev :=
 (* ---------- predicates used by the theorems and as known-finding triggers ---------- *)
 Definition byz_frozen_m (s : St) (a : Z) : bool :=
   match susp s !! a with Some l => lvh_frozen l && (l_status l =? BYZ) | None => false end.
-(* trigger C19.missed_scan_overwrites_byzantine: BeginBlock's missed-votes scan reaches [a] *)
-Definition missed_scan_hits (c : Cfg) (s : St) (o : Op) (a : Z) : bool :=
-  match o with
-  | OBegin h _ low =>
-      (blockVotesDiff c <? h) && inb a low &&
-      match vstat s !! a with Some v => v_active v && (v_height v + blockVotesDiff c <=? h) | None => false end
-  | _ => false
-  end.
-(* trigger C19.height_le_votes_diff *)
-Definition height_le_votes_diff (c : Cfg) (h : Z) : bool := h <=? blockVotesDiff c.
